@@ -666,6 +666,8 @@ class Executor:
         if k == "closure":
             return Closure(rv[1], [n for n, _ in rv[2]], [self.operand(st, fid, o, subst) for _, o in rv[2]], subst)
         if k == "variant" and rv[1] == "":
+            if rv[2] in ("Less", "Equal", "Greater"):
+                return Enum("Ordering", rv[2])
             owners = [e for e, vs in self.enums.items() if any(v == rv[2] for v, _ in vs)]
             if len(owners) != 1:
                 raise Unsupported("bare variant %s is ambiguous (%s)" % (rv[2], owners))
@@ -1234,6 +1236,16 @@ class Executor:
                             if self.feasible(o.state, z3.Not(o.value)):
                                 res.append(Outcome(o.state.fork(z3.Not(o.value)), Enum(v.ty, "None")))
                 return res
+        # ---- bool::then_some (the value is already computed)
+        if meth == "then_some" and len(args) == 2 and (isinstance(args[0], bool) or is_sym(args[0])):
+            used("bool::then_some")
+            b, val = args
+            oty = "Option<?>"
+            if b is True:
+                return [Outcome(st, Enum(oty, "Some", [val]))]
+            if b is False:
+                return [Outcome(st, Enum(oty, "None"))]
+            return self._fork_cases(st, [(b, Enum(oty, "Some", [val])), (z3.Not(b), Enum(oty, "None"))])
         # ---- bool::then
         if head == "bool" and meth == "then":
             used("bool::then")
